@@ -495,9 +495,19 @@ func (r *rw) insertStmtPoints(f *ast.File) {
 		}
 		b.List = doList(b.List)
 	}
+	skip := map[*ast.BlockStmt]bool{}
 	ast.Inspect(f, func(n ast.Node) bool {
 		switch x := n.(type) {
+		case *ast.SwitchStmt:
+			skip[x.Body] = true
+		case *ast.TypeSwitchStmt:
+			skip[x.Body] = true
+		case *ast.SelectStmt:
+			skip[x.Body] = true
 		case *ast.BlockStmt:
+			if skip[x] {
+				return true
+			}
 			doBlock(x)
 		case *ast.CaseClause:
 			x.Body = doList(x.Body)
